@@ -222,4 +222,51 @@ def create_delta_spec(inp):
     return f(inp)
 
 
-THOROUGH = [('lindbladian', {}, None), ('superoperator_helpers', {}, None), ('exact_ancilla', {}, None), ('set_after_get', {}, None), ('order_of_environments', {}, 'c03/order-independent[non-commuting-environments]')]
+def rank3_with_transforms(inp):
+    """a hand-built process tensor with classical memory written once as rank-3 (delta) tensors in the Pauli basis WITH in/out transforms
+    and once as the identical rank-4 tensors without transforms: same states at every step (in-memory and file-backed), the state at
+    step 0 is the initial state, traces stay 1"""
+    import oqupy
+    from oqupy.process_tensor import SimpleProcessTensor, FileProcessTensor
+    sig = oqupy.operators.sigma
+    P = [np.eye(2), sig('x'), sig('y'), sig('z')]
+    tin = np.array([(p.T).reshape(4) / np.sqrt(2) for p in P]).T
+    tout = np.array([p.reshape(4) / np.sqrt(2) for p in P])
+    n = 4
+    trans = np.array([[0.7, 0.3], [0.4, 0.6]])
+    lam = np.array([[1, 0.9, 0.5, 0.45], [1, 0.2, 0.2, 0.6]])
+    p0 = np.array([0.25, 0.75])
+    T = np.einsum('ab,ak->abk', trans, lam)
+
+    def build(cls, rank3):
+        kw = dict(dt=0.1, transform_in=tin if rank3 else None, transform_out=tout if rank3 else None)
+        pt = SimpleProcessTensor(2, **kw) if cls == 'simple' else FileProcessTensor('write', hilbert_space_dimension=2, **kw)
+        for k in range(n):
+            t = T.copy()
+            if k == 0:
+                t = np.einsum('a,abk->bk', p0, t)[None]
+            if k == n - 1:
+                t = t.sum(axis=1)[:, None, :]
+            if not rank3:
+                t = np.einsum('abk,ik,ko->abio', t, tin, tout)
+            pt.set_mpo_tensor(k, np.array(t, dtype=complex))
+        pt.compute_caps()
+        return pt
+    H = np.array([[0.3, 0.2 - 0.4j], [0.2 + 0.4j, -0.1]])
+    rho0 = np.array([[0.7, 0.2 - 0.1j], [0.2 + 0.1j, 0.3]])
+    bad = []
+    for cls in ('simple', 'file'):
+        res = {}
+        for rank3 in (True, False):
+            pt = build(cls, rank3)
+            res[rank3] = oqupy.compute_dynamics(oqupy.System(H), initial_state=rho0, process_tensor=pt, progress_type='silent').states
+            if cls == 'file':
+                pt.remove()
+        dev = float(np.abs(res[True] - res[False]).max())
+        tr = [float(np.trace(x).real) for x in res[True]]
+        if dev > 1e-9 or abs(res[True][0] - rho0).max() > 1e-12 or max(abs(t - 1) for t in tr) > 1e-9:
+            bad.append({'process tensor': cls, 'rank-3 with transforms vs identical rank-4': dev, 'traces of the rank-3 result': [round(t, 4) for t in tr]})
+    return {'violates': bool(bad), 'detail': bad}
+
+
+THOROUGH = [('lindbladian', {}, None), ('superoperator_helpers', {}, None), ('exact_ancilla', {}, None), ('set_after_get', {}, None), ('rank3_with_transforms', {}, None), ('order_of_environments', {}, 'c03/order-independent[non-commuting-environments]')]
